@@ -269,8 +269,9 @@ pub fn emit_case_known(out: &mut dyn Write, group: &str, c: &Case, verbose: bool
         }
     } else if !panicked {
         // an injected panic must propagate, provided the closure was reached in the sequential order
-        let red_panic = matches!(c.panic_at, Some((ST_RED, _)));
-        // the operator is invoked (#survivors - 1) times whatever the grouping
+        let red_panic = matches!(c.panic_at, Some((ST_RED, _)) | Some((ST_KEY, _)) | Some((ST_CMP, _)) | Some((ST_ID, _)));
+        // the operator (and with it the comparator; the key closure twice) is invoked
+        // (#survivors - 1) times whatever the grouping
         let reached = if red_panic { c.panic_at.map(|(_, k)| (k as usize) < ex.seq_vals.len()).unwrap_or(false) } else { ex.log.iter().any(|e| Some(*e) == c.panic_at.map(|(s, a)| (s, a))) };
         let fired = if red_panic { r.rec.events.iter().any(|e| e.stage == ST_RED_FIRED) } else { r.rec.events.iter().any(|e| Some((e.stage, e.arg)) == c.panic_at) };
         if fired {
@@ -368,7 +369,7 @@ pub fn emit_case_known(out: &mut dyn Write, group: &str, c: &Case, verbose: bool
             }
             for (s, set) in &by_stage {
                 if set.len() > n {
-                    if *s == ST_RED && set.len() == n + 1 && set.contains(&(0, 0)) && n > 1 {
+                    if (*s == ST_RED || *s == ST_KEY || *s == ST_CMP) && set.len() == n + 1 && set.contains(&(0, 0)) && n > 1 {
                         notes.push(format!("KNOWN:C08 reduce-op-on-caller:distinct=n+1 (n={})", n));
                     } else {
                         fails.push(format!("C08:stage-{}-ran-on-{}-threads-for-Max({})", s, set.len(), n));
@@ -1518,6 +1519,10 @@ pub fn run(out: &mut dyn Write, prop: &str, seed: u64, thorough: bool) -> std::i
                     if matches!(c.term, TermD::Reduce(_)) && rng.chance(1, 2) && ex.seq_vals.len() >= 2 {
                         // the reduce operator itself panics, at its k-th invocation
                         cand = vec![(ST_RED, rng.range(1, ex.seq_vals.len() as u64 - 1))];
+                    }
+                    if matches!(c.term, TermD::MinByKey(_) | TermD::MaxByKey(_)) && rng.chance(2, 3) && ex.seq_vals.len() >= 2 {
+                        // the key-extraction closure panics (it runs inside the reduce operator)
+                        cand = vec![(ST_KEY, rng.range(1, ex.seq_vals.len() as u64 - 1))];
                     }
                     if cand.is_empty() {
                         continue;
